@@ -65,6 +65,9 @@ def run(ck: Checker):
         from .c04 import check_containment
 
         check_containment(ck, 'C04-1')  # a failing preprocess / call becomes that request's answer; the service loops go on
+        from .c04 import check_worker_short_circuit
+
+        check_worker_short_circuit(ck, 'C04-3')  # an upstream failure never becomes an element of somebody else's batch
         from .c04 import check_outcome_unpack
         from .c09 import BUF, check_deadline_shape
         from .common import WORKER
